@@ -2,6 +2,7 @@
 K3: no shared mutable module/class state; built-ins are constructed per context; one globals dictionary is shared by
 identity with every VM of the context; a fresh VM per eval and _current_vm reset on every exit.
 B: exhaustive short histories over two contexts against a one-dictionary-per-context model."""
+from pyvc import structural as _S_
 from pyvc import groups
 from pyvc.groups import ob
 
@@ -58,7 +59,7 @@ def c12_struct(tier="quick", seed=0):
                 out.append(ob(f"C12.struct.global-stmt.{mod.split('.')[-1]}.L{n.lineno}", False, "K3", f"`global {n.names}` at {mod}:{n.lineno}"))
             if isinstance(n, ast.FunctionDef):
                 for d in n.decorator_list:
-                    dn = ast.unparse(d)
+                    dn = _S_.unparse(d)
                     if "cache" in dn:
                         out.append(ob(f"C12.struct.cache.{mod.split('.')[-1]}.{n.name}", False, "K3", f"@{dn} on {n.name} shares results between contexts ({mod}:{n.lineno})",
                                       witness="one context modifies the cached built-in, another observes it"))
@@ -100,25 +101,25 @@ def c12_struct(tier="quick", seed=0):
                     if base is None:
                         continue
                     n_attr += 1
-                    txt = ast.unparse(base)
+                    txt = _S_.unparse(base)
                     on_class = (isinstance(base, ast.Name) and (base.id in class_names or base.id == "cls" or base.id in func_names)) or \
                         txt.startswith("type(") or txt.endswith(".__class__")
                     # (the singleton idiom of the immutable undefined/null values: `cls._instance = super().__new__(cls)` in __new__)
-                    singleton = isinstance(f, ast.FunctionDef) and f.name == "__new__" and isinstance(n, ast.Assign) and ast.unparse(n.value) == "super().__new__(cls)"
+                    singleton = isinstance(f, ast.FunctionDef) and f.name == "__new__" and isinstance(n, ast.Assign) and _S_.unparse(n.value) == "super().__new__(cls)"
                     if on_class and not singleton:
                         out.append(ob(f"C12.struct.class-state.{mod.split('.')[-1]}.{txt}.L{n.lineno}", False, "K3",
-                                      f"{ast.unparse(t_)} is assigned at run time ({mod}:{n.lineno}): one value for the whole process, shared by all contexts",
+                                      f"{_S_.unparse(t_)} is assigned at run time ({mod}:{n.lineno}): one value for the whole process, shared by all contexts",
                                       witness="two contexts: the second one sees (or overwrites) what the first one stored there"))
     out.append(ob("C12.struct.class-state.scan", n_attr > 0, "K3", f"{n_attr} attribute/element assignments inspected: none stores on a class, a function or type(self)"))
     out.append(ob("C12.struct.inventory", n_bind > 0, "K3", f"{n_bind} module-level bindings inspected"))
     # 2. persistence and recovery in Context.eval
-    ev = ast.unparse(S.fn("microjs.context", "Context.eval"))
+    ev = _S_.unparse(S.fn("microjs.context", "Context.eval"))
     out.append(ob("C12.struct.eval-fresh-vm", "vm = VM(memory_limit=self.memory_limit, time_limit=self.time_limit)" in ev, "K3", "Context.eval builds a fresh VM"))
     out.append(ob("C12.struct.eval-shares-globals", "vm.globals = self._globals" in ev, "K3", "the VM's globals are the context's dictionary (identity)"))
     out.append(ob("C12.struct.eval-resets-current-vm", "finally:\n        self._current_vm = None" in ev, "K3", "_current_vm is reset on every exit of eval"))
-    nv = ast.unparse(S.fn("microjs.context", "Context._nested_vm"))
+    nv = _S_.unparse(S.fn("microjs.context", "Context._nested_vm"))
     out.append(ob("C12.struct.nested-shares-globals", "vm.globals = self._globals" in nv, "K3", "nested eval / Function / comparators share the same dictionary"))
-    init = ast.unparse(S.fn("microjs.context", "Context.__init__"))
+    init = _S_.unparse(S.fn("microjs.context", "Context.__init__"))
     out.append(ob("C12.struct.init-own-globals", "self._globals: Dict[str, JSValue] = {}" in init and "self._setup_globals()" in init, "K3", "each context creates its own globals and built-ins"))
     # 3. all _create_* are instance methods (per-context construction), none static/class/cached
     ctx_cls, _ = S.source().class_info("Context")
